@@ -16,3 +16,8 @@ CHECKS["C09"] = {
   "text": "Exhaustive for widths 1..13 (quick) / 1..17 (thorough): every value in [-2^(w-1),2^w) in every notation (decimal, u0x, s0x, true/false, case and leading-zero variants). Widths up to 65535 by boundary sets and rapid-drawn low-entropy patterns that drive the decimal-vs-hex printer heuristic. Oracles: math/big reference reading of each notation, Ident→NewIntFromString round trip, the same through asm.ParseString, and llvm-as|llvm-dis on llir's printed output.",
   "note": "Trusts math/big and the reference reading in checks/c09 (s0x = two's complement by type width, as the property states; LLVM's own s0x reading is deliberately not used). Values are compared modulo 2^w.",
 }
+CHECKS["C10"] = {
+  "technique": "property-based testing: exhaustive enumeration of all 65536 half patterns + rapid-generated bit patterns/decimal strings for the six kinds against a reference literal codec; LLVM 14 differential (llvm-as|llvm-dis prints exact patterns) on input and on llir's output",
+  "text": "Half is exhaustive (every pattern in every spelling). float/double/x86_fp80/fp128/ppc_fp128 are explored by structured boundary sets and rapid-drawn patterns in all spellings including short hex forms (split as LLVM's lexer does) and arbitrary decimal strings for double (halfway cases, subnormal and overflow range). Oracles: an independent reference reading of every literal form (h/ref/floatlit.go) and LLVM's own reading of input versus output in batches of 200 globals.",
+  "note": "Trusts strconv.ParseFloat as the correctly rounded decimal->double reference, the reference codec, and LLVM 14. Non-canonical NaN payloads, invalid x87 encodings and ppc_fp128 pairs that are not canonical 106-bit double-doubles are open known findings: excluded by construction and counted while they still reproduce.",
+}
